@@ -70,6 +70,9 @@ type scenario struct {
 	enrichers []enricherS
 	api       string // enriched | scan | match
 	ctx       string // live | cancelled
+	// cancelAtEnricher > 0: enricher number cancelAtEnricher-1 cancels the caller's
+	// Context from inside Enrich (oracle-only scenarios: the outcome is not determined)
+	cancelAtEnricher int
 }
 
 func ints(xs []int) string {
